@@ -424,6 +424,31 @@ impl Prop for C01 {
             if !done {
                 return;
             }
+            // (r2) messages close to the low mark in size: every refill matters (a look-ahead below the low mark cuts them)
+            let gmax2 = if !thorough { 4200 } else { 8400 };
+            let chunks2: &[usize] = if !thorough { &[usize::MAX, 5000, 1000] } else { &[usize::MAX, 5000, 4096, 1000, 333] };
+            ctx.begin_family("reader_windows_big", &format!("both framings, 5 messages of 3000..3900 payload bytes with one garbage run of every length 0..={gmax2} (2 kinds) after the first, through LowMarkBufReader(cap {cap}, low mark {low}) over sources with read chunk {:?}", chunks2));
+            done = true;
+            'r2: for fr in &framings {
+                for kind in [0usize, 6] {
+                    for glen in 0..=gmax2 {
+                        for &chunk in chunks2 {
+                            if ctx.mine() {
+                                let ms: Vec<MsgSpec> = (0..5).map(|i| shape(fr, [31u8, 0, UEH, 31, WTMS][i], [3000usize, 3900, 3500, 3333, 3899][i], i % 3, i as u8, i)).collect();
+                                run_stream_via(ctx, "reader_windows_big", ms, vec![vec![], garbage(glen, kind), vec![], vec![], g_small(glen % G_SMALL), vec![]], Via::Reader { cap, low, chunk });
+                            }
+                        }
+                        if glen % 64 == 0 && ctx.out_of_time() {
+                            done = false;
+                            break 'r2;
+                        }
+                    }
+                }
+            }
+            ctx.end_family(done);
+            if !done {
+                return;
+            }
         }
         if !thorough {
             return;
